@@ -7,6 +7,7 @@ package main
 import (
 	"fmt"
 	"go/ast"
+	"golang.org/x/tools/go/ssa"
 	"go/constant"
 	"go/token"
 	"go/types"
@@ -62,7 +63,19 @@ func (g *gen) specEnv(cur, old *State) *SpecEnv {
 	}
 	if g.con != nil && g.con.Decl != nil {
 		names := contractParamNames(g.con)
-		ps := g.fn.Params
+		var ps []ssa.Value
+		for _, p := range g.fn.Params {
+			ps = append(ps, p)
+		}
+		if g.fn.Parent() != nil {
+			// closure: the contract header lists the parameters, then the free variables
+			if g.con.Decl.Recv != nil {
+				names = names[len(g.con.Decl.Recv.List):]
+			}
+			for _, fv := range g.fn.FreeVars {
+				ps = append(ps, fv)
+			}
+		}
 		for i, n := range names {
 			if i < len(ps) && n != "" && n != "_" {
 				env.vars[n] = &SV{V: g.vals[ps[i]], St: cur}
@@ -804,11 +817,27 @@ func (e *SpecEnv) evalCall(n *ast.CallExpr) *SV {
 		ne.cur = e.old
 		r := ne.eval(n.Args[0])
 		return r
+	case "lastresult":
+		// lastresult(F): the value returned by the latest call of F that dominates this point
+		id, ok := n.Args[0].(*ast.Ident)
+		if !ok {
+			e.fail("lastresult(F) expects a function name")
+			return nil
+		}
+		v, ok := e.g.lastCall[id.Name]
+		if !ok {
+			e.fail("lastresult(%s): no dominating call", id.Name)
+			return nil
+		}
+		return &SV{V: v, St: e.cur}
 	case "implies__":
 		save := e.goal
 		e.goal = !save
 		a := arg(0)
 		e.goal = save
+		if a != nil && a.V != nil && len(a.V.L) == 1 && a.V.L[0].IsFalse() {
+			return svBool(True) // antecedent is literally false here: the consequent need not be meaningful
+		}
 		b := arg(1)
 		if a == nil || b == nil {
 			return nil
@@ -1047,6 +1076,47 @@ func (e *SpecEnv) evalCall(n *ast.CallExpr) *SV {
 			return nil
 		}
 		return &SV{V: e.g.unbox(e.cur, a.V.L[0], t), St: e.cur}
+	case "smget", "smhas":
+		// smget(obj.Field, key): the element stored under key in a declared sync.Map field
+		a := e.evalAddr(n.Args[0])
+		k := arg(1)
+		if a == nil || k == nil || a.V == nil {
+			return nil
+		}
+		d := e.g.syncMapDeclFor(a.V)
+		if d == nil {
+			e.fail("%s: not a declared sync.Map field", name)
+			return nil
+		}
+		et := e.g.syncMapElemType(d)
+		hk, vk, ks := e.g.syncMapKeys(a.V, d)
+		if name == "smhas" {
+			return svBool(e.cur.heap.Get(hk, SBool, ks).Read(a.V.L[0], k.V.L[0]))
+		}
+		v := e.cur.heap.Get(vk, SInt, ks).Read(a.V.L[0], k.V.L[0])
+		rv := &Val{T: et, L: []*Term{v}}
+		if p, ok := et.Underlying().(*types.Pointer); ok {
+			rv.Addr = &AddrInfo{Root: p.Elem(), Known: true}
+		}
+		return &SV{V: rv, St: e.cur}
+	case "allunlocked":
+		// allunlocked("<struct type>", "<mutex field path>"): no object of that type has this mutex held
+		if len(n.Args) != 2 {
+			e.fail("allunlocked(type, path)")
+			return nil
+		}
+		ta, pa := arg(0), arg(1)
+		if ta == nil || pa == nil || !ta.V.L[0].IsLit() || !pa.V.L[0].IsLit() {
+			e.fail("allunlocked needs two string literals")
+			return nil
+		}
+		k := LeafKey{Type: ta.V.L[0].S, Path: joinPath(pa.V.L[0].S, "$held")}
+		r := e.freshBound("obj")
+		body := Not(e.cur.heap.Get(k, SBool, SInt).Read(r, nil))
+		if e.goal {
+			return svBool(body)
+		}
+		return svBool(Forall([]*Term{r}, body))
 	case "held":
 		a := e.evalAddr(n.Args[0])
 		if a == nil {
